@@ -13,6 +13,12 @@
 (*                             every package's template-data is valid      *)
 (*           "differ-invalid"  same, but the data of the packages using    *)
 (*                             schema B violates B                         *)
+(*           "unfetchable"     one custom template whose template-schema   *)
+(*                             cannot be retrieved, shared by packages     *)
+(*                             with MIXED require-template-schema-exists   *)
+(*                             (true for even settings sources): a file    *)
+(*                             that requires the schema fails, the others  *)
+(*                             are rendered without validation             *)
 (*   layout  "perpkg"  one output file per package (all its mocks in it)   *)
 (*           "periface" one output file per interface                      *)
 (*   ents    0 | 2     explicitly configured packages list their first     *)
@@ -46,10 +52,13 @@ Ifaces == {1, 2}
 \* ------------------------------------------------------------------ the generation profile, by settings source
 SchemaOf(s) == CASE W.g.mode = "none" -> "none"
                  [] W.g.mode = "same" -> "A"
+                 [] W.g.mode = "unfetchable" -> "X"
                  [] OTHER             -> IF s % 2 = 1 THEN "A" ELSE "B"
 \* schema A accepts any template-data; schema B requires the key `need`
 DataHasNeed(s) == W.g.mode # "differ-invalid"
-ValidAgainst(schema, s) == schema # "B" \/ DataHasNeed(s)
+Requires(s) == W.g.mode # "unfetchable" \/ s % 2 = 0          \* require-template-schema-exists of source s
+\* B requires the key `need`; X cannot be fetched, which is fatal exactly for a file that requires its schema
+ValidAgainst(schema, s) == (schema # "B" \/ DataHasNeed(s)) /\ (schema # "X" \/ ~Requires(s))
 
 EntriesOf(k, j) == IF W.on[k] /\ j = 1 /\ W.g.ents > 0 THEN [e \in 1..W.g.ents |-> e] ELSE <<0>>
 FileOf(k, j) == IF W.g.layout = "perpkg" THEN <<k, 0>> ELSE <<k, j>>
